@@ -287,6 +287,36 @@ func C18(c *fw.Ctx) {
 			corpus = append(corpus, item{model.Render(parenAll(prog)), "", "expression-tree", n%211 == 0})
 		})
 	}
+	// array and object histories (aliasing, append / remove idioms, listings)
+	n = 0
+	{
+		aops := arrOps()
+		for st := 0; st < arrStartCount; st++ {
+			for i, o1 := range aops {
+				if o1.Leaf {
+					continue
+				}
+				for j, o2 := range aops {
+					if o2.Leaf || (c.Quick() && (i*len(aops)+j)%3 != 0) {
+						continue
+					}
+					corpus = append(corpus, item{model.Render(parenAll(arrProgram([]int{st, i, j}, aops))), "", "array-history", every(&n, 997)})
+				}
+			}
+		}
+		oops := objOps(false)
+		for i, o1 := range oops {
+			if o1.Leaf {
+				continue
+			}
+			for j, o2 := range oops {
+				if o2.Leaf || (i*len(oops)+j)%2 != 0 {
+					continue
+				}
+				corpus = append(corpus, item{model.Render(parenAll(objProgram([]int{i, j}, oops))), "", "object-history", every(&n, 997)})
+			}
+		}
+	}
 	// fault x position programs (diagnostics quote names)
 	faults, poss := c06Faults(), c06Positions()
 	n = 0
